@@ -150,8 +150,11 @@ SOURCES = [
   guard(id='g_do_swap', file=IMPL, sig=r'void ' + G + r'do_swap\(guard_ptr& g\)', c_sig='static void g_do_swap(struct guard* self, struct guard* g_p)',
         subst=[(r'std::swap\(he, g\.he\)', 'XV_SWAP_HE(he, (*g_p).he)', 'swap')], must_fire={'subst:swap': 1}),
   dict(id='g_swap', file=BASE, sig=r'void swap\(Derived& g\)', c_sig='static void g_swap(struct guard* self, struct guard* g_p)',
-       subst=[(r'std::swap\(ptr, g\.ptr\)', 'XV_SWAP_PTR(self->ptr, (*g_p).ptr)', 'swap'), (r'self\(\)\.do_swap\(g\)', 'g_do_swap(self, g_p)', 'do_swap')],
+       # CRTP dispatch: self().do_swap(g) is hazard_eras::guard_ptr::do_swap (exchanges the era slots); an unqualified do_swap(g) is the base class' empty dummy
+       subst=[(r'std::swap\(ptr, g\.ptr\)', 'XV_SWAP_PTR(self->ptr, (*g_p).ptr)', 'swap'), (r'self\(\)\.do_swap\(g\)', 'g_do_swap(self, g_p)', 'do_swap'),
+              (r'(?<![.\w])do_swap\(g\)', 'g_base_do_swap(self, g_p)', 'base_do_swap')],
        must_fire={'subst:swap': 1, 'subst:do_swap': 1}),
+  dict(id='g_base_do_swap', file=BASE, sig=r'void do_swap\(Derived&\s*\w*\) noexcept', c_sig='static void g_base_do_swap(struct guard* self, struct guard* g_p)', must_fire={}),
   dict(id='g_dtor', file=BASE, sig=r'~guard_ptr\(\)', c_sig='static void g_dtor(struct guard* self)',
        subst=[(r'self\(\)\.reset\(\)', 'g_reset(self)', 'reset')], must_fire={'subst:reset': 1}),
   guard(id='g_reclaim', file=IMPL, sig=r'void ' + G + r'reclaim\(Deleter d\)', c_sig='static void g_reclaim(struct guard* self, int d)',
